@@ -31,13 +31,6 @@ package ptrify
 //@   requires 0 <= a && a < n && keeps(t, a)
 //@   ensures retained(t, a) < retained(t, n)
 
-// Config types are not recursive: a finite rank that decreases along struct-field and pointer edges
-// (a precondition on the user's type: Pointerify recurses along exactly these edges).
-//@ fun srank(t RType) int
-//@ axiom nonrecursive_config_types_rank_nonneg: forall t RType :: {srank(t)} srank(t) >= 0
-//@ axiom nonrecursive_config_types_fields: forall t RType, i int :: {srank(fType(t, i))} kind(t) == Struct && 0 <= i && i < numField(t) ==> srank(fType(t, i)) < srank(t)
-//@ axiom nonrecursive_config_types_pointers: forall t RType :: {srank(elem(t))} kind(t) == Ptr ==> srank(elem(t)) < srank(t)
-
 // ptrShape(T, P): P has one field per retained field of T, in order, with the same name.
 //@ def ptrShape(t RType, p RType) bool = kind(p) == Struct && numField(p) == retained(t, numField(t))
 //@      && (forall k int :: {fName(t, k)} 0 <= k && k < numField(t) && keeps(t, k) ==> fName(p, retained(t, k)) == fName(t, k))
